@@ -145,10 +145,11 @@ def cost_estimate(mesh, kw, cache):
     key = (id(mesh), kw['mode'], kw['n_hop'])
     if key not in cache:
         inc, nb, P = G.neighbourhoods(mesh, kw['mode'], kw['n_hop'])
-        cache[key] = (sum(len(x) ** 3 for x in nb), sum(len(x) for x in nb))
-    c3, c1 = cache[key]
+        cache[key] = (sum(len(x) ** 3 for x in nb), sum(len(x) for x in nb),
+                      sum(len(x) ** 2 for x in nb))
+    c3, c1, c2 = cache[key]
     if not kw['moment_matrix']:
-        return 0.3 + 1.2e-3 * c1 * (1.5 if kw['consider_volume'] else 1.0)
+        return 0.3 + (1.2e-3 * c1 + 1.2e-4 * c2) * (1.5 if kw['consider_volume'] else 1.0)
     f = 1.0
     if kw['consider_volume']:
         f = 4.0 if (kw['mode'] == 'nodal' and not kw['use_effective_volume']) else 2.0
@@ -172,7 +173,8 @@ def plan(ctx):
     combos = all_kw()
     for k in range(n_mesh):
         et = 'tet' if k % 2 == 0 else 'hex'
-        dims = DIMS_POOL[(k // 2) % len(DIMS_POOL)]
+        pool = DIMS_POOL if quick else DIMS_POOL + [(3, 3, 5), (4, 3, 3), (4, 4, 3), (2, 4, 5)]
+        dims = pool[(k // 2) % len(pool)]
         dims = tuple(rng.sample(dims, 3))
         mp = rng.choice(list(G.MAPS))
         jitter = rng.random() < (0.7 if et == 'tet' else 0.5)
@@ -186,8 +188,13 @@ def plan(ctx):
     mids = list(meshes)
     cache = {}
     unplaced = 0
+    total_budget = 1500.0 if quick else 6000.0      # estimated CPU seconds of vm_compute
+    spent = 0.0
     for rnd in range(n_rounds):
         for kw in combos:
+            if spent > total_budget:
+                unplaced += 1
+                continue
             fit = []
             for mid in mids:
                 mesh = meshes[mid]
@@ -219,6 +226,7 @@ def plan(ctx):
                 mid = rng.choice(fit)
             cases.append({'mesh': mid, 'kw': dict(kw), 'kernel': None,
                           'est': cost_estimate(meshes[mid], kw, cache)})
+            spent += cases[-1]['est'] + 1.0
     ctx.notes['unplaced_option_cases'] = unplaced
     # kernels (oracle only): exp / gauss with a scale adapted to the mesh
     for mid in mids:
@@ -277,11 +285,13 @@ def oracle_case(mesh, case, mats, conv, P, well):
     if case['kw']['moment_matrix'] and well:
         for g, c in case['affine']:
             f = [sum(Fr(gg) * p for gg, p in zip(g, P[j])) + c for j in range(n)]
+            fmax = max(abs(x) for x in f)
             stop = False
             for a, rows in enumerate(rows3):
                 for i, row in enumerate(rows):
                     val = sum(x * f[j] for j, x in row)
-                    sc = abs(Fr(g[a])) + sum(abs(x * f[j]) for j, x in row)
+                    # scale: |g| + (operator norm of the row) x (size of the field)
+                    sc = max(abs(Fr(x)) for x in g) + sum(abs(x) for _, x in row) * fmax
                     if abs(val - g[a]) > Fr(1, 10 ** 9) * sc:
                         bad.append(('affine-exact', {'axis': a, 'row': i, 'g': g, 'c': c,
                                                      'computed': float(val), 'true': g[a]}))
@@ -295,6 +305,7 @@ def oracle_case(mesh, case, mats, conv, P, well):
     if conv is not None:
         data = case['data']
         nfeat = len(data[0])
+        dmax = max(abs(x) for r in data for x in r)
         shape = conv['shape']
         if shape != [n, 3, nfeat]:
             bad.append(('convenience', {'shape': shape, 'expected_shape': [n, 3, nfeat]}))
@@ -306,7 +317,7 @@ def oracle_case(mesh, case, mats, conv, P, well):
                     row = rows3[a][i]
                     for k in range(nfeat):
                         val = sum(x * data[j][k] for j, x in row)
-                        sc = sum(abs(x * data[j][k]) for j, x in row) + Fr(1, 2 ** 60)
+                        sc = sum(abs(x) for _, x in row) * dmax + Fr(1, 2 ** 60)
                         if abs(val - gr[(i * 3 + a) * nfeat + k]) > Fr(1, 2 ** 40) * sc:
                             bad.append(('convenience', {'vertex': i, 'axis': a, 'feature': k,
                                                         'by_hand': float(val),
@@ -410,7 +421,8 @@ def run_coq_batches(ctx, batches, meshes, vols):
                         dest[cid] = 'coq evaluation failed or timed out'
                     else:
                         times[(kind, cid)] = r[2]
-                        if not r[0]:
+                        ok = (r[1] == 'None') if c.get('malformed') else r[0]
+                        if not ok:
                             dest[cid] = r[1]
     return fm, fc, errors, times
 
@@ -448,9 +460,12 @@ def prepare_cases(ctx, meshes, cases):
     for j in jobs:
         if j['kind'] == 'volumes':
             r = res[j['id']]
-            if 'error' in r:
-                raise RuntimeError('calculate_element_volumes failed on a generated mesh: ' + r['error'])
             mesh = meshes[j['mid']]
+            if 'error' in r:
+                if mesh.get('descr', {}).get('malformed'):
+                    vols[j['mid']] = [Fr(1)] * len(mesh['conn'])
+                    continue
+                raise RuntimeError('calculate_element_volumes failed on a generated mesh: ' + r['error'])
             impl = [fr_hex(h) for h in r['volumes']]
             if 'exact_vol' not in mesh:
                 mesh['exact_vol'] = exact_volumes(mesh)
@@ -572,6 +587,18 @@ def main(ctx):
     meshes.update(gm)
     cases += gc
     ctx.notes['corpus_cases'] = n_corpus
+    # small malformed stream (kept apart): an element refers to a node id that
+    # does not exist; the model rejects (incidence = None), femio must raise
+    for k, mid in enumerate(list(gm)[:3]):
+        bad = {x: gm[mid][x] for x in ('etype', 'node_ids', 'xyz', 'elem_ids')}
+        bad['conn'] = [list(e) for e in gm[mid]['conn']]
+        bad['conn'][k % len(bad['conn'])][k % len(bad['conn'][0])] = max(bad['node_ids']) + 12345
+        bad['descr'] = dict(gm[mid]['descr'], malformed='dangling node id')
+        bad['exact_vol'] = None
+        meshes[f'bad{k}'] = bad
+        cases.append({'mesh': f'bad{k}', 'malformed': True, 'kernel': None, 'with_conv': False,
+                      'kw': dict(mode=('nodal', 'elemental')[k % 2], n_hop=1, consider_volume=False,
+                                 use_effective_volume=True, moment_matrix=False)})
     res, vols = prepare_cases(ctx, meshes, cases)
     ctx.log(f'implementation ran: {len(meshes)} meshes, {len(cases)} option cases')
 
@@ -583,6 +610,17 @@ def main(ctx):
     for c in cases:
         mesh = meshes[c['mesh']]
         kw = c['kw']
+        if c.get('malformed'):
+            r = res[c['job_mat']]
+            ctx.count('malformed:dangling-node-id')
+            ctx.case([mesh['descr'], 'malformed', kw_key(kw)], nontrivial=False)
+            if 'error' not in r:
+                failures.append((c['n'], 'correspondence', mesh, c, 'femio raises (the model rejects)',
+                                 {'returned': 'matrices'}, 'correspondence C15 (malformed stream)',
+                                 'malformed'))
+            else:
+                batch_items.append((c['id'], c, [[], [], []], None))
+            continue
         inc, nb, P = G.neighbourhoods(mesh, kw['mode'], kw['n_hop'])
         well = well_conditioned(nb, P) if kw['moment_matrix'] else True
         r = res[c['job_mat']]
